@@ -14,6 +14,7 @@ from .. import install, gen, reach
 from ..install import ctx as _ctx
 from ..bootstrap import smod
 
+REPO_TESTS_UNDER_CONTRACTS = True
 RULE = ('cases = (window name, N, shape parameters); exhaustive over the 29 names x N (1..128 quick, 1..512 '
         'thorough) with default parameters, plus parameter grids and sampled N up to 16384; non-trivial when '
         'N >= 3; distinct = distinct descriptor')
